@@ -316,7 +316,10 @@ func (h *NativeHashMap[K, V]) EqualNative(thread *Thread, other *NativeHashMap[K
 	}
 
 	for hkey, hval := range h.m {
-		oval := other.m[hkey]
+		oval, ok := other.m[hkey]
+		if !ok {
+			return false, value.Undefined
+		}
 		eqVal, err := Equal(thread, hval.ToValue(), oval.ToValue())
 		if !err.IsUndefined() {
 			return false, err
@@ -350,7 +353,10 @@ func (h *NativeHashMap[K, V]) LaxEqualNative(thread *Thread, other *NativeHashMa
 	}
 
 	for hkey, hval := range h.m {
-		oval := other.m[hkey]
+		oval, ok := other.m[hkey]
+		if !ok {
+			return false, value.Undefined
+		}
 		eqVal, err := LaxEqual(thread, hval.ToValue(), oval.ToValue())
 		if !err.IsUndefined() {
 			return false, err
